@@ -972,8 +972,8 @@ def typed_submsg_harness(fx, e, hname, props, tier):
                  "                let p = sub.payload.as_slice();",
                  "                assert!(p.len() == 6 && p[0] == b'\"' && p[5] == b'\"' && p[3] == b'=' && p[4] == b'=');",
                  "            }", "            Err(_) => assert!(false),", "        }", "        kani::cover!(true, \"end of harness reachable\");"]
-        body = "\n    #[kani::proof]\n    #[kani::unwind(30)]\n    %s\n    fn %s() {\n%s\n    }\n" % (STUBS, hname, "\n".join(lines))
-        reg(hname, fx["feature"], props, tier, "SubMsgMethods::%s with one typed (not raw-marked) Binary payload: the payload is JSON-encoded (a quoted base64 string), not passed raw" % e["name"], fx["mod"])
+        body = "\n    #[kani::proof]\n    #[kani::unwind(30)]\n    %s\n    #[kani::stub(cosmwasm_std::Binary::to_base64, b64_stub)]\n    fn %s() {\n%s\n    }\n" % (STUBS, hname, "\n".join(lines))
+        reg(hname, fx["feature"], props, tier, "SubMsgMethods::%s with one typed (not raw-marked) Binary payload: the payload is JSON-encoded (a quoted string), not passed raw (Binary::to_base64 stubbed with a fixed text: assumption)" % e["name"], fx["mod"])
         return body
     vals = ["v%d" % k for k in range(n)]
     lines = ["        " + " ".join("let %s: u8 = kani::any(); kani::assume(%s < 10);" % (v, v) for v in vals)]
@@ -1045,7 +1045,7 @@ def emit_reply_fixture(fx):
                 out.append(submsg_harness(fx, e, recv, "c08_%s_%s_%s" % (mod, e["name"], recv), ["C08"] + px, tier if recv == "submsg" else "thorough"))
     for e in table:
         if e["payload"] != "raw" and fx.get("submsg", True):
-            out.append(typed_submsg_harness(fx, e, "c08_%s_%s_typed_builder" % (mod, e["name"]), ["C08"], "thorough"))
+            out.append(typed_submsg_harness(fx, e, "c08_%s_%s_typed_builder" % (mod, e["name"]), ["C08"], "quick" if e["payload"] == ["Binary"] else "thorough"))
     if fx.get("data_cells"):
         for e in table:
             m = e["succ"]
@@ -1106,10 +1106,11 @@ def fx_reply(perm=False):
 
 def fx_reply_typed():
     # typed (JSON) payloads: only type-level and builder-side obligations are in reach (from_json is not)
-    # (a third handler with one typed, not raw-marked `Binary` payload was tried: the builder harness has to run the
-    # base64 encoder of Binary's Serialize and CBMC does not finish in 900 s; that payload signature is uncovered)
-    rs = [R("typed_one", "success", payload=["u64"]), R("typed_two", "error", payload=["u64", "u32"])]
-    rs[0].h, rs[1].h = 1, 2
+    # third handler: one typed, NOT raw-marked `Binary` payload.  Running the base64 encoder of Binary's Serialize does not
+    # finish under CBMC (900 s), so its harness stubs Binary::to_base64 with a fixed text and decides only "JSON-encoded
+    # (quoted string) vs passed raw"
+    rs = [R("typed_one", "success", payload=["u64"]), R("typed_two", "error", payload=["u64", "u32"]), R("typed_bin", "success", payload=["Binary"])]
+    rs[0].h, rs[1].h, rs[2].h = 1, 2, 3
     return dict(mod="fx_reply_typed", feature="g_reply", contract="ReplyT", replies=rs, tier="quick", dispatch=False)
 
 
